@@ -321,6 +321,29 @@ CLAIMED["C18"]["technique"] = "Lean 4 proof + translator-generated equivalence o
 CLAIMED["C12"]["text"] += (" Multifurcating inputs go through the CLI too (ext_spfs / superdtl): every clade the user named "
     "keeps its name in the written refinement.")
 
+# ---- build round 2, third wave ----
+CLAIMED["C02"]["text"] = CLAIMED["C02"]["text"].replace(
+    "With a prescribed root order only the oracle lower bound and the mask-level optimality are proved.",
+    "The same holds end to end with a PRESCRIBED root order, strict supersequences of the leaf families included "
+    "(C02_ext_exact_prescribed, validity = Spec.validSolPre).")
+CLAIMED["C05"]["text"] += (" The ANY policy is also proved for the code-structured models (every cell: same value, its single "
+    "tag one of the ALL tags; result = one member of the ALL result inside the coherent region).")
+CLAIMED["C12"]["text"] += (" Proved for all arities: through binarize, the Newick re-parse and the second label_internal every "
+    "user-given name and colour stays on the node with the same clade and new nodes get fresh O#/S# names (C12_refine_cli_full).")
+CLAIMED["C16"]["text"] = ("Lean 4 proof, for every history of candidates, every batching, both merge policies and the three retention "
+    "policies: the entry's value is the optimum of everything offered, its tags are exactly (all) / one of (any) / none of "
+    "(none) the tags of optimal candidates, the value does not depend on the retention policy; combine() is the optimum over "
+    "pairs of retained tags (also with a rejecting combinator); for tables of any shape (Dict / List dimensions, partial "
+    "indexing, negative indices, lazy errors): a read returns the fold of exactly the finite-containing batches written to "
+    "THAT cell (frame property), an unwritten cell reads as infinitely bad, a failing operation changes no cell.  The model "
+    "covers the whole public API of dynamic_programming.py and is tied to it by bounded-exhaustive and random OPERATION "
+    "SEQUENCES replayed on the real classes; the property itself is also evaluated on the implementation's outputs.")
+CLAIMED["C16"]["note"] = TRUST + "tags assumed None or truthy and mutually comparable; bool/float/slice keys out of scope."
+CLAIMED["C16"]["technique"] = "Lean 4 invariant proof over update / operation histories + differential correspondence on operation sequences"
+CLAIMED["C17"]["text"] += (" Second tie: range_min_query.py is translated mechanically from the source text on every run and the "
+    "generated build + query are proved equal to the model, exceptions included (C17Code); graceful fallback as for C18.")
+CLAIMED["C17"]["technique"] = "Lean 4 structural-induction proof + translator-generated equivalence obligations + differential correspondence"
+
 PENDING = "check not built yet in this round (planned: Lean 4 model + proof + correspondence, see DESIGN.md section 7)"
 
 
